@@ -45,7 +45,7 @@ ASSUMPTIONS = ["std::ranlux24_base, std::mt19937 and the std/boost distributions
                "mutex deleted (sequential semantics); the RNG constructors' member-initialiser lists (seed obtained from nextSeed() handed to the engine) are not extracted"]
 TRUSTED = ["extraction rewrite table of units/C20.py", "stubs in units/C20/seed.c", "CBMC 6.11"]
 NOT_COVERED = ["bit-identical whole-planner runs across processes (unordered containers keyed by pointers, wall-clock use inside planners): a 2-run hyperproperty of whole programs",
-               "RNG::RNG() / RNG::RNG(seed) initialiser lists, SphericalData::reset loop"]
+               "RNG::RNG() / RNG::RNG(seed) initialiser lists, SphericalData::reset loop", "planner code (RRT, PRM, BIT*): only the samplers they draw from and the evaluation-count termination condition are under contract"]
 
 MISC_CPPS = ['src/ompl/util/src/RandomNumbers.cpp']
 NATIVE = [
